@@ -124,6 +124,14 @@ def handle (G : Grammar) (toks : List String) (st : HM) (x : Abnf.Ext.XState) : 
   | ["b1table"] =>
     (String.intercalate ";" (Abnf.Ref.b1Class.map (fun (n, ivs) =>
       n ++ String.join (ivs.map (fun (a, b) => " " ++ toString a ++ "-" ++ toString b)))), st, x)
+  -- every request starts from empty caches (memoisation within one request only)
+  | "lparse1" :: r :: i :: cps =>
+    (showRes (lparseC hmOps G fuel (nats cps) (.ref r.toNat!) i.toNat! {}).1 true, st, x)
+  | "parse1" :: r :: i :: cps =>
+    (showPRes (pickWith id (lparseC hmOps G fuel (nats cps) (.ref r.toNat!) i.toNat! {}).1), st, x)
+  | "parseall1" :: r :: cps =>
+    let s := nats cps
+    (showPRes (wholeOf s (pickWith id (lparseC hmOps G fuel s (.ref r.toNat!) 0 {}).1)), st, x)
   -- cache-free engine (the definition the theorems speak about)
   | "lparse0" :: r :: i :: cps => (showRes (lparse G fuel (nats cps) (.ref r.toNat!) i.toNat!) true, st, x)
   | "ends0" :: r :: i :: cps => (showRes (lparse G fuel (nats cps) (.ref r.toNat!) i.toNat!) false, st, x)
